@@ -256,9 +256,38 @@ def run(ctx):
                       "`Property/Informational-property/Label/ABC`) are unequal, so the repeat is not reported" % norm(c)[:70],
                       desc="tag equality compares `%s` case-folded" % norm(l)[:30])
     ctx.floor("R4.7", "form comparisons in HedTag.__eq__", n_cmp, 2)
+    ctx.rule("R4.8", "the string-level validators keep no state between calls (nothing is stored on self outside the constructors)")
+    MUT = ("add", "append", "update", "pop", "clear", "extend", "remove", "setdefault", "discard", "insert", "popitem")
+    n_meth = 0
+    for cn in ("TagValidator", "GroupValidator", "UnitValueValidator", "CharValidator", "CharRexValidator", "StringValidator",
+               "HedValidator", "DefValidator"):
+        vc = prog.find_class(cn)
+        for mth in vc.all_methods:
+            if mth.name == "__init__":
+                continue
+            n_meth += 1
+            for st in walk_no_nested(mth.node):
+                bad = None
+                if isinstance(st, (ast.Assign, ast.AugAssign)):
+                    for t in (st.targets if isinstance(st, ast.Assign) else [st.target]):
+                        b = t
+                        while isinstance(b, ast.Subscript):
+                            b = b.value
+                        if isinstance(b, ast.Attribute) and isinstance(b.value, ast.Name) and b.value.id == "self":
+                            bad = "stores to self.%s" % b.attr
+                if isinstance(st, ast.Call) and isinstance(st.func, ast.Attribute) and st.func.attr in MUT and \
+                        isinstance(st.func.value, ast.Attribute) and isinstance(st.func.value.value, ast.Name) and st.func.value.value.id == "self":
+                    bad = "mutates self.%s (.%s)" % (st.func.value.attr, st.func.attr)
+                if bad:
+                    ctx.saw(mth)
+                    ctx.violation("R4.8", mth.qualname, st, loc(mth, st),
+                                  "%s %s while validating: what is reported for one tag then depends on which tags (or strings) were "
+                                  "validated before it, i.e. on sibling order and on validation history" % (mth.short, bad))
+    ctx.ok("R4.8", "%d methods of the string-level validators store nothing on self" % n_meth, "")
+    ctx.floor("R4.8", "methods of the string-level validators", n_meth, 40)
     ctx.rule("R4.6", "a per-item validator loop is left early only after a report for the current item")
     from sa.stale import check_no_silent_break
-    allv = [f for f in prog.functions.values() if f.module.name.startswith("hed.validator.")]
+    allv = [f for f in prog.functions.values() if f.module.name.startswith("hed.validator.") or f.module.name == "hed.models.hed_group"]
     nb = check_no_silent_break(ctx, "R4.6", allv, "Whether a sibling is validated then depends on whether it comes before or "
                                "after this item, i.e. on sibling order.")
     ctx.floor("R4.6", "breaks in reporting loops of the validators", nb, 1)
